@@ -1,15 +1,16 @@
 /-
-  Rivia.Lemmas.WalkCF — `contents_first` together with a kind filter, after the repair of
-  `EntriesIter::process` (a directory is deferred only if it passed the filter).
+  Rivia.Lemmas.WalkCF — the option domains of the exactness theorems after the two repairs of
+  `EntriesIter` (`process` filters before it defers; the deferred stack records depths and a
+  directory is released when the stack of open directories is back at its depth).
 
-  * `dirs()` (and no filter): every directory passes, the deferred stack mirrors the stack of
-    open directories: handled directly in Lemmas/Walk.lean (`PostOk`) and Lemmas/WalkFollow.lean
-    (`DomFW`);
-  * `files()`: no directory passes (`FlagsExcl`: no entry carries both kind flags), nothing is ever
-    deferred, the machine runs exactly as without `contents_first` (`*_cfOff` below) — and so does
-    the specification walk, whose directories are not selected.
-
-  `ExactDom2` / `ExactDomF2`: the wider option domains of the exactness theorems.
+  * `ExactDom3` / `ExactDomF3`: `OrdOk ∧ KindOk`, nothing else — `contents_first` with any depth
+    window and kind filter is exact (`collectEntries_post` in Lemmas/Walk.lean, `runIter_exact` in
+    Lemmas/WalkFollow.lean, whose domain `DomFW` is now `KindOk`);
+  * `ExactDom2` / `ExactDomF2` (after the first repair only: `min_depth = 0`) and the side condition
+    `FlagsOkFor` are kept for the theorems stated with them; the side condition is no longer used.
+  * the `*_cfOff` lemmas (with `files()` and exclusive kind flags nothing is ever deferred, the run
+    equals the run without `contents_first`) are kept as facts about the machine; the exactness
+    theorems do not depend on them any more.
 -/
 import Rivia.Lemmas.Walk
 import Rivia.Lemmas.WalkFollow
@@ -151,6 +152,8 @@ theorem procP_noDef {snap : Snap} (hs : FlagsExcl snap) {o : Opts} (hcf : o.cont
     repeat' split
     all_goals exact h
 
+theorem deferredReady_nil (n : Nat) : deferredReady n [] = false := rfl
+
 theorem nextLoop_cfOff {σ} {snap : Snap} (hs : FlagsExcl snap) {o : Opts} (hf : o.files = true) :
     ∀ (f : Nat) (st : ISt) (w : σ), NoDef st →
       nextLoop snap o noPre f st w = nextLoop snap (cfOff o) noPre f st w ∧
@@ -161,18 +164,21 @@ theorem nextLoop_cfOff {σ} {snap : Snap} (hs : FlagsExcl snap) {o : Opts} (hf :
     obtain ⟨hd, hit⟩ := hst
     simp only [] at hd hit
     subst hd
-    have hnd : ∀ (c : Bool) (n : Nat), ¬ (c = true ∧ n < ([] : List Entry).length) := by
-      intro c n h; simp at h
     cases iters with
     | nil =>
-      simp only [nextLoop, hnd, if_false]
-      exact ⟨trivial, ⟨rfl, hit⟩⟩
+      refine ⟨?_, ?_⟩
+      · simp only [nextLoop, ite_self]
+      · simp only [nextLoop, ite_self]
+        exact ⟨rfl, hit⟩
     | cons top below =>
       obtain ⟨tp, tc, items⟩ := top
       cases items with
       | nil =>
-        simp only [nextLoop, hnd, if_false]
-        exact nextLoop_cfOff hs hf f _ w ⟨rfl, fun it h => hit it (List.mem_cons_of_mem _ h)⟩
+        have hst1 : NoDef ⟨started, if tc then openDesc else openDesc - 1, below, []⟩ :=
+          ⟨rfl, fun it h => hit it (List.mem_cons_of_mem _ h)⟩
+        have ih := nextLoop_cfOff hs hf f ⟨started, if tc then openDesc else openDesc - 1, below, []⟩ w hst1
+        simp only [nextLoop, deferredReady_nil, Bool.false_eq_true, and_false, if_false]
+        exact ih
       | cons x xs =>
         have hx : QE (x.doFollow o.follow) :=
           QE_doFollow _ (hit ⟨tp, tc, x :: xs⟩ List.mem_cons_self x List.mem_cons_self)
@@ -186,7 +192,7 @@ theorem nextLoop_cfOff {σ} {snap : Snap} (hs : FlagsExcl snap) {o : Opts} (hf :
           · exact hit it (List.mem_cons_of_mem _ h)
         have hp := process_cfOff snap hf ⟨started, openDesc, ⟨tp, tc, xs⟩ :: below, []⟩ hx w
         have hn := procP_noDef hs (cfOff_cf o) ⟨started, openDesc, ⟨tp, tc, xs⟩ :: below, []⟩ (x.doFollow o.follow) hst1
-        simp only [nextLoop, hnd, if_false, cfOff_follow, hp]
+        simp only [nextLoop, deferredReady_nil, Bool.false_eq_true, and_false, if_false, cfOff_follow, hp]
         rw [process_w]
         revert hn
         generalize procP snap (cfOff o) ⟨started, openDesc, ⟨tp, tc, xs⟩ :: below, []⟩ (x.doFollow o.follow) = P
@@ -387,73 +393,108 @@ def ExactDomF2 (o : Opts) : Prop := o.follow = true ∧ OrdOk o ∧ DomF2 o
 
 instance (o : Opts) : Decidable (ExactDomF2 o) := by unfold ExactDomF2; infer_instance
 
+/-- the option combinations for which the implementation is exact after BOTH repairs (decidable),
+    links not followed: no restriction on `contents_first` or the depth window at all — only
+    exclusive kind filters (`KindOk`) and grouping with a sort (`OrdOk`) -/
+def ExactDom3 (o : Opts) : Prop := o.follow = false ∧ OrdOk o ∧ KindOk o
+
+instance (o : Opts) : Decidable (ExactDom3 o) := by unfold ExactDom3; infer_instance
+
+theorem ExactDom2.to3 {o : Opts} (h : ExactDom2 o) : ExactDom3 o := by
+  obtain ⟨h1, h2, h3 | ⟨_, _, h3⟩⟩ := h
+  · exact ⟨h1, h2, h3.2⟩
+  · exact ⟨h1, h2, h3⟩
+
+theorem ExactDom.to3 {o : Opts} (h : ExactDom o) : ExactDom3 o := (ExactDom.to2 h).to3
+
+/-- the same with links followed -/
+def ExactDomF3 (o : Opts) : Prop := o.follow = true ∧ OrdOk o ∧ KindOk o
+
+instance (o : Opts) : Decidable (ExactDomF3 o) := by unfold ExactDomF3; infer_instance
+
+theorem DomF2.kindOk {o : Opts} (h : DomF2 o) : KindOk o := by
+  rcases h with h | ⟨_, _, h⟩
+  · exact h.2
+  · exact h
+
+theorem ExactDomF2.to3 {o : Opts} (h : ExactDomF2 o) : ExactDomF3 o := ⟨h.1, h.2.1, h.2.2.kindOk⟩
+
 /-- the side condition of the `files().contents_first()` case: exclusive kind flags -/
 def FlagsOkFor (snap : Snap) (o : Opts) : Prop := o.contentsFirst = true → o.files = true → FlagsExcl snap
 
 instance (snap : Snap) (o : Opts) : Decidable (FlagsOkFor snap o) := by unfold FlagsOkFor; infer_instance
 
-theorem collectEntries_exact2 {snap : Snap} (hwf : SnapWf snap) {o : Opts} (hdom : ExactDom2 o)
-    (hx : FlagsOkFor snap o) {rootE : Entry} (hr : InSnap snap rootE) :
+/-- exactness for EVERY option combination with `follow = false`, `OrdOk`, `KindOk`
+    (no side condition: the depth-tagged deferred stack makes `FlagsOkFor` unnecessary) -/
+theorem collectEntries_exact3 {snap : Snap} (hwf : SnapWf snap) {o : Opts} (hdom : ExactDom3 o)
+    {rootE : Entry} (hr : InSnap snap rootE) :
     collectEntries snap o rootE = .ok (entriesSpec snap o rootE) := by
-  obtain ⟨hfol, hord, h | ⟨hcf, hmin, hk⟩⟩ := hdom
-  · exact collectEntries_pre hwf hfol h.1 hord h.2 hr
-  · cases hf : o.files with
-    | false => exact collectEntries_post hwf hfol ⟨hcf, hmin, hf⟩ hord hr
-    | true =>
-      have hs := hx hcf hf
-      have hq : QE rootE := QE_of_lookup hs hr
-      rw [collectEntries_cfOff hs hf hq, entriesSpec_cfOff hs hf hq]
-      exact collectEntries_pre (o := cfOff o) hwf hfol rfl (ordOk_cfOff hord) (kindOk_cfOff hk) hr
+  obtain ⟨hfol, hord, hk⟩ := hdom
+  cases hcf : o.contentsFirst with
+  | false => exact collectEntries_pre hwf hfol hcf hord hk hr
+  | true => exact collectEntries_post hwf hfol hcf hk hord hr
 
-theorem es_eq_of_exact2 {snap : Snap} {o : Opts} {rootE : Entry} {es : List Entry}
-    (hwf : SnapWf snap) (hroot : InSnap snap rootE) (hdom : ExactDom2 o) (hx : FlagsOkFor snap o)
+theorem collectEntries_exact2 {snap : Snap} (hwf : SnapWf snap) {o : Opts} (hdom : ExactDom2 o)
+    (_hx : FlagsOkFor snap o) {rootE : Entry} (hr : InSnap snap rootE) :
+    collectEntries snap o rootE = .ok (entriesSpec snap o rootE) :=
+  collectEntries_exact3 hwf hdom.to3 hr
+
+theorem es_eq_of_exact3 {snap : Snap} {o : Opts} {rootE : Entry} {es : List Entry}
+    (hwf : SnapWf snap) (hroot : InSnap snap rootE) (hdom : ExactDom3 o)
     (h : collectEntries snap o rootE = .ok es) : es = entriesSpec snap o rootE := by
-  rw [collectEntries_exact2 hwf hdom hx hroot] at h
+  rw [collectEntries_exact3 hwf hdom hroot] at h
   exact (Outcome.ok.inj h).symm
 
-theorem runIter_exact2 {snap : Snap} (hwf : SnapWf snap) {o : Opts} (hfol : o.follow = true)
-    (hord : OrdOk o) (hdom : DomF2 o) (hx : FlagsOkFor snap o) {rootE : Entry} (hr : InSnap snap rootE) :
-    ∀ f, fuelNeed snap o rootE ≤ f → runIter snap o noPre rootE stepCons f {} [] =
-      (specOutcome (entriesSpecF snap o rootE).2, (entriesSpecF snap o rootE).1.reverse) := by
-  rcases hdom with h | ⟨hcf, hmin, hk⟩
-  · exact runIter_exact hwf hfol hord (Or.inl h) hr
-  · cases hf : o.files with
-    | false => exact runIter_exact hwf hfol hord (Or.inr ⟨hcf, hmin, hf⟩) hr
-    | true =>
-      have hs := hx hcf hf
-      have hq : QE rootE := QE_of_lookup hs hr
-      intro f hfu
-      rw [runIter_cfOff hs hf hq _ _ _ _ noDef_init, entriesSpecF_cfOff hs hf hq]
-      exact runIter_exact (o := cfOff o) hwf hfol (ordOk_cfOff hord) (Or.inl ⟨rfl, kindOk_cfOff hk⟩) hr f
-        (by rw [fuelNeed_cfOff]; exact hfu)
+theorem es_eq_of_exact2 {snap : Snap} {o : Opts} {rootE : Entry} {es : List Entry}
+    (hwf : SnapWf snap) (hroot : InSnap snap rootE) (hdom : ExactDom2 o) (_hx : FlagsOkFor snap o)
+    (h : collectEntries snap o rootE = .ok es) : es = entriesSpec snap o rootE :=
+  es_eq_of_exact3 hwf hroot hdom.to3 h
 
-theorem collectEntries_exactF2 {snap : Snap} (hwf : SnapWf snap) {o : Opts} (hfol : o.follow = true)
-    (hord : OrdOk o) (hdom : DomF2 o) (hx : FlagsOkFor snap o) {rootE : Entry} (hr : InSnap snap rootE)
+/-- exactness with links followed for EVERY option combination with `OrdOk`, `KindOk` -/
+theorem runIter_exact3 {snap : Snap} (hwf : SnapWf snap) {o : Opts} (hfol : o.follow = true)
+    (hord : OrdOk o) (hk : KindOk o) {rootE : Entry} (hr : InSnap snap rootE) :
+    ∀ f, fuelNeed snap o rootE ≤ f → runIter snap o noPre rootE stepCons f {} [] =
+      (specOutcome (entriesSpecF snap o rootE).2, (entriesSpecF snap o rootE).1.reverse) :=
+  runIter_exact hwf hfol hord hk hr
+
+theorem runIter_exact2 {snap : Snap} (hwf : SnapWf snap) {o : Opts} (hfol : o.follow = true)
+    (hord : OrdOk o) (hdom : DomF2 o) (_hx : FlagsOkFor snap o) {rootE : Entry} (hr : InSnap snap rootE) :
+    ∀ f, fuelNeed snap o rootE ≤ f → runIter snap o noPre rootE stepCons f {} [] =
+      (specOutcome (entriesSpecF snap o rootE).2, (entriesSpecF snap o rootE).1.reverse) :=
+  runIter_exact3 hwf hfol hord hdom.kindOk hr
+
+theorem collectEntries_exactF3 {snap : Snap} (hwf : SnapWf snap) {o : Opts} (hfol : o.follow = true)
+    (hord : OrdOk o) (hk : KindOk o) {rootE : Entry} (hr : InSnap snap rootE)
     (hfuel : fuelNeed snap o rootE ≤ travFuel snap) :
     collectEntries snap o rootE =
       match entriesSpecF snap o rootE with
       | (ys, none) => .ok ys
-      | (_, some k) => .err k := by
-  have h := runIter_exact2 hwf hfol hord hdom hx hr (travFuel snap) hfuel
-  unfold collectEntries
-  have hs : (fun e (acc : List Entry) => ((.ok () : Outcome Unit), e :: acc)) = stepCons := rfl
-  rw [hs, h]
-  generalize entriesSpecF snap o rootE = R
-  obtain ⟨ys, r⟩ := R
-  cases r <;> simp [specOutcome]
+      | (_, some k) => .err k :=
+  collectEntries_exactF hwf hfol hord hk hr hfuel
+
+theorem collectEntries_exactF2 {snap : Snap} (hwf : SnapWf snap) {o : Opts} (hfol : o.follow = true)
+    (hord : OrdOk o) (hdom : DomF2 o) (_hx : FlagsOkFor snap o) {rootE : Entry} (hr : InSnap snap rootE)
+    (hfuel : fuelNeed snap o rootE ≤ travFuel snap) :
+    collectEntries snap o rootE =
+      match entriesSpecF snap o rootE with
+      | (ys, none) => .ok ys
+      | (_, some k) => .err k :=
+  collectEntries_exactF3 hwf hfol hord hdom.kindOk hr hfuel
+
+theorem travM_exact3 {env : Env} {p : Str} {r : TravReq} {s : State} {k : FsPath} {rootE : Entry} {snap : Snap}
+    (habs : absM env p s = (.ok k, s)) (hent : entriesOf s k = .ok (rootE, snap))
+    (hwf : SnapWf snap) (hroot : InSnap snap rootE) (hfol : r.opts.follow = true) (hord : OrdOk r.opts)
+    (hk : KindOk r.opts) (hfuel : fuelNeed snap r.opts rootE ≤ travFuel snap) :
+    travM env p r s =
+      (.ok (.trav ((entriesSpecF snap r.opts rootE).1.map (·.path)) (entriesSpecF snap r.opts rootE).2), s) :=
+  travM_exact habs hent hwf hroot hfol hord hk hfuel
 
 theorem travM_exact2 {env : Env} {p : Str} {r : TravReq} {s : State} {k : FsPath} {rootE : Entry} {snap : Snap}
     (habs : absM env p s = (.ok k, s)) (hent : entriesOf s k = .ok (rootE, snap))
     (hwf : SnapWf snap) (hroot : InSnap snap rootE) (hfol : r.opts.follow = true) (hord : OrdOk r.opts)
-    (hdom : DomF2 r.opts) (hx : FlagsOkFor snap r.opts) (hfuel : fuelNeed snap r.opts rootE ≤ travFuel snap) :
+    (hdom : DomF2 r.opts) (_hx : FlagsOkFor snap r.opts) (hfuel : fuelNeed snap r.opts rootE ≤ travFuel snap) :
     travM env p r s =
-      (.ok (.trav ((entriesSpecF snap r.opts rootE).1.map (·.path)) (entriesSpecF snap r.opts rootE).2), s) := by
-  have hrun := runIter_exact2 hwf hfol hord hdom hx hroot (travFuel snap) hfuel
-  have hmap := runIter_map (fun e => e.path) snap r.opts rootE (travFuel snap) {} []
-  rw [hrun] at hmap
-  simp only [List.map_nil] at hmap
-  unfold travM
-  simp only [bind, M.bind, habs, M.get, M.liftO, hent, hmap]
-  cases (entriesSpecF snap r.opts rootE).2 <;> simp [specOutcome, pure, M.pure, List.map_reverse]
+      (.ok (.trav ((entriesSpecF snap r.opts rootE).1.map (·.path)) (entriesSpecF snap r.opts rootE).2), s) :=
+  travM_exact3 habs hent hwf hroot hfol hord hdom.kindOk hfuel
 
 end Rivia.Lemmas.WalkCF
